@@ -1,14 +1,16 @@
 (* C05: core / dead features (anomalies/core.rs).
-   (A) the syntactic core (calculate_core) is sound for every WF circuit and exact when no node
-       is dead (no_dead) and every node is reachable;
-   (B) without no_dead it is incomplete (finding K7);
+   (A) the cached core (calculate_core, the repaired algorithm F22: live literals only) is exact
+       for every WF circuit that has a model - dead branches or not; it is sound for every WF circuit;
+   (A0) the syntactic core of the code before the repair (calculate_core_v0) is sound for every
+       WF circuit and exact when no node is dead (no_dead) and every node is reachable;
+   (B) without no_dead calculate_core_v0 is incomplete (finding K7, repaired by F22);
    (C) the with-assumptions loop, stated against the truth-table count MCA, reports exactly the
        literals fixed in all models that contain the assumptions; glue lemma to the algorithm
        under the hypothesis that execute_query computes MCA;
    (D) the per-candidate criterion. *)
 From Coq Require Import List ZArith Bool Lia Permutation.
 From DD Require Import Model.Circuit Model.Query Proofs.PassLemmas Proofs.Enum Proofs.Semantics
-  Proofs.DetCert Proofs.CountsA Proofs.QueryDefs.
+  Proofs.DetCert Proofs.CountsA Proofs.QueryDefs Proofs.Live.
 Import ListNotations.
 Open Scope Z_scope.
 
@@ -57,11 +59,11 @@ Qed.
 Lemma has_lit_false (C : circuit) (l : Z) : has_lit C l = false <-> ~ In (Lit l) C.
 Proof. rewrite <- has_lit_In. destruct (has_lit C l); split; congruence. Qed.
 
-Lemma calculate_core_In (C : circuit) (n : nat) (l : Z) :
-  In l (calculate_core C n) <->
+Lemma calculate_core_v0_In (C : circuit) (n : nat) (l : Z) :
+  In l (calculate_core_v0 C n) <->
   - Z.of_nat n <= l <= Z.of_nat n /\ In (Lit l) C /\ ~ In (Lit (- l)) C.
 Proof.
-  unfold calculate_core. rewrite filter_In, zseq_In, andb_true_iff, negb_true_iff.
+  unfold calculate_core_v0. rewrite filter_In, zseq_In, andb_true_iff, negb_true_iff.
   rewrite has_lit_In, has_lit_false. split.
   - intros [Hr [H1 H2]]. split; [lia|tauto].
   - intros [Hr [H1 H2]]. split; [lia|tauto].
@@ -184,11 +186,11 @@ Qed.
 
 (* ================= (A) soundness: needs WF only ================= *)
 
-Theorem core_sound_WF (C : circuit) (n : nat) (l : Z) :
-  WF C n -> In l (calculate_core C n) -> forall m, In m (Models C n) -> In l m.
+Theorem core_sound_WF_v0 (C : circuit) (n : nat) (l : Z) :
+  WF C n -> In l (calculate_core_v0 C n) -> forall m, In m (Models C n) -> In l m.
 Proof.
   intros HWF Hl m Hm.
-  apply calculate_core_In in Hl. destruct Hl as [Hr [Hpos Hneg]].
+  apply calculate_core_v0_In in Hl. destruct Hl as [Hr [Hpos Hneg]].
   assert (Hnz : l <> 0).
   { intros ->. apply Hneg. exact Hpos. }
   destruct (model_repr C n m HWF Hm) as [c [Hc ->]].
@@ -201,9 +203,9 @@ Proof.
   exact (enum_lits C (wf_idx C n HWF) (root C) (root_lt C (wf_nonempty C n HWF)) c Hc (- l) Hin).
 Qed.
 
-Theorem core_sound (C : circuit) (n : nat) (l : Z) :
-  WFQ C n -> In l (calculate_core C n) -> forall m, In m (Models C n) -> In l m.
-Proof. intros HQ. apply core_sound_WF. apply HQ. Qed.
+Theorem core_sound_v0 (C : circuit) (n : nat) (l : Z) :
+  WFQ C n -> In l (calculate_core_v0 C n) -> forall m, In m (Models C n) -> In l m.
+Proof. intros HQ. apply core_sound_WF_v0. apply HQ. Qed.
 
 (* ================= upward extension (no_dead + all_reachable) ================= *)
 
@@ -333,15 +335,15 @@ Qed.
 (* ================= (A) completeness ================= *)
 
 (* uses: WF, all_reachable, no_dead (not unique_leaves, not lits_nonzero) *)
-Theorem core_complete_WF (C : circuit) (n : nat) (l : Z) :
+Theorem core_complete_WF_v0 (C : circuit) (n : nat) (l : Z) :
   WF C n -> all_reachable C = true -> no_dead C = true ->
-  (forall m, In m (Models C n) -> In l m) -> In l (calculate_core C n).
+  (forall m, In m (Models C n) -> In l m) -> In l (calculate_core_v0 C n).
 Proof.
   intros HWF Hreach Hnd Hall.
   destruct (no_dead_has_model C n HWF Hnd) as [m0 Hm0].
   pose proof (Models_in_table C n m0 Hm0) as Ht0.
   pose proof (table_In_range n m0 l Ht0 (Hall m0 Hm0)) as Hr.
-  apply calculate_core_In. split; [lia|]. split.
+  apply calculate_core_v0_In. split; [lia|]. split.
   - (* the leaf l exists: m0 comes from a root configuration that mentions |l| *)
     destruct (model_repr C n m0 HWF Hm0) as [c [Hc Heq]].
     pose proof (root_good C n HWF c Hc) as HG.
@@ -357,25 +359,160 @@ Proof.
     exact (table_no_conflict n m l (Models_in_table C n m Hm) (Hall m Hm) Hlm).
 Qed.
 
-Theorem core_syntactic (C : circuit) (n : nat) (l : Z) :
+Theorem core_syntactic_v0 (C : circuit) (n : nat) (l : Z) :
   WFQ C n -> no_dead C = true ->
-  (In l (calculate_core C n) <-> (forall m, In m (Models C n) -> In l m)).
+  (In l (calculate_core_v0 C n) <-> (forall m, In m (Models C n) -> In l m)).
 Proof.
   intros HQ Hnd. split.
-  - apply core_sound. exact HQ.
-  - apply core_complete_WF; [apply HQ|apply HQ|exact Hnd].
+  - apply core_sound_v0. exact HQ.
+  - apply core_complete_WF_v0; [apply HQ|apply HQ|exact Hnd].
 Qed.
 
-(* the A = [] branch of the algorithm returns the cached syntactic core *)
+(* ================= (A) the repaired core: exact whenever there is a model ================= *)
+
+Lemma core_nonzero (C : circuit) (n : nat) (l : Z) : In l (calculate_core C n) -> l <> 0.
+Proof. intros H ->. apply core_In_raw in H. destruct H as [_ [H1 H2]]. now apply H2. Qed.
+
+Lemma core_range (C : circuit) (n : nat) (l : Z) :
+  In l (calculate_core C n) -> 1 <= Z.abs l <= Z.of_nat n.
+Proof.
+  intros H. pose proof (core_nonzero C n l H) as Hnz.
+  apply core_In_raw in H. destruct H as [Hr _]. lia.
+Qed.
+
+(* soundness needs WF only: without a model there is nothing to show, with a model the complement
+   of a core literal occurs in no configuration of the root *)
+Theorem core_sound_WF (C : circuit) (n : nat) (l : Z) :
+  WF C n -> In l (calculate_core C n) -> forall m, In m (Models C n) -> In l m.
+Proof.
+  intros HWF Hl m Hm.
+  pose proof (core_range C n l Hl) as Hr.
+  pose proof (core_enum_spec C n l (wf_idx C n HWF) (wf_nonempty C n HWF) Hl) as Hneg.
+  destruct (model_repr C n m HWF Hm) as [c [Hc ->]].
+  pose proof (root_good C n HWF c Hc) as HG.
+  pose proof (complete_range C n (wf_complete C n HWF)) as HV.
+  apply (good_in_canon n c _ l HG HV).
+  destruct (good_has_var n c _ l HG HV Hr) as [Hin|Hin]; [exact Hin|].
+  exfalso. exact (Hneg c Hc Hin).
+Qed.
+
+Theorem core_sound (C : circuit) (n : nat) (l : Z) :
+  WFQ C n -> In l (calculate_core C n) -> forall m, In m (Models C n) -> In l m.
+Proof. intros HQ. apply core_sound_WF. apply HQ. Qed.
+
+Lemma root_count_has_model (C : circuit) (n : nat) :
+  WF C n -> 0 < root_count C -> exists c, In c (enum_root C) /\ In (canon_cfg n c) (Models C n).
+Proof.
+  intros HWF Hrc. rewrite <- enum_root_count in Hrc.
+  destruct (enum_root C) as [|c R] eqn:E; [cbn [length] in Hrc; lia|].
+  exists c. split; [now left|]. apply repr_model; [exact HWF|]. rewrite E. now left.
+Qed.
+
+(* completeness needs WF and a model: no hypothesis on dead nodes, reachability or unique leaves *)
+Theorem core_complete_WF (C : circuit) (n : nat) (l : Z) :
+  WF C n -> 0 < root_count C ->
+  (forall m, In m (Models C n) -> In l m) -> In l (calculate_core C n).
+Proof.
+  intros HWF Hrc Hall.
+  pose proof (wf_idx C n HWF) as Hok. pose proof (wf_nonempty C n HWF) as Hne.
+  pose proof (complete_range C n (wf_complete C n HWF)) as HV.
+  destruct (root_count_has_model C n HWF Hrc) as [c0 [Hc0 Hm0]].
+  pose proof (Models_in_table C n _ Hm0) as Ht0.
+  pose proof (table_In_range n _ l Ht0 (Hall _ Hm0)) as Hr.
+  apply (core_live C n l Hok Hne); [lia|]. split; [lia|]. split.
+  - (* l is live: the configuration c0 mentions |l|, and not as -l *)
+    apply (live_lit_enum C Hok l Hne). exists c0. split; [exact Hc0|].
+    pose proof (root_good C n HWF c0 Hc0) as HG.
+    destruct (good_has_var n c0 _ l HG HV Hr) as [Hin|Hin]; [exact Hin|].
+    exfalso. apply (table_no_conflict n _ l Ht0 (Hall _ Hm0)).
+    exact (good_in_canon n c0 _ (- l) HG HV Hin).
+  - (* -l is not live: otherwise some model contains -l *)
+    intros HL. apply (live_lit_enum C Hok (- l) Hne) in HL. destruct HL as [c [Hc Hin]].
+    pose proof (repr_model C n c HWF Hc) as Hm.
+    apply (table_no_conflict n _ l (Models_in_table C n _ Hm) (Hall _ Hm)).
+    exact (good_in_canon n c _ (- l) (root_good C n HWF c Hc) HV Hin).
+Qed.
+
+(* the cached core lists exactly the literals contained in every model *)
+Theorem core_exact_WF (C : circuit) (n : nat) (l : Z) :
+  WF C n -> 0 < root_count C ->
+  (In l (calculate_core C n) <-> (forall m, In m (Models C n) -> In l m)).
+Proof.
+  intros HWF Hrc. split; [now apply core_sound_WF|now apply core_complete_WF].
+Qed.
+
+Theorem core_exact (C : circuit) (n : nat) (l : Z) :
+  WFQ C n -> 0 < root_count C ->
+  (In l (calculate_core C n) <-> (forall m, In m (Models C n) -> In l m)).
+Proof. intros HQ. apply core_exact_WF. apply HQ. Qed.
+
+(* representation: the sub-list of -n, ..., n (ascending, so duplicate-free) of the literals that
+   every model contains *)
+Definition in_all_models (C : circuit) (n : nat) (l : Z) : bool :=
+  forallb (fun m => memZ l m) (Models C n).
+
+Lemma in_all_models_spec (C : circuit) (n : nat) (l : Z) :
+  in_all_models C n l = true <-> (forall m, In m (Models C n) -> In l m).
+Proof.
+  unfold in_all_models. rewrite forallb_forall. split; intros H m Hm.
+  - apply memZ_In. now apply H.
+  - apply memZ_In. now apply H.
+Qed.
+
+Lemma filter_ext_in' {A} (p q : A -> bool) (l : list A) :
+  (forall x, In x l -> p x = q x) -> filter p l = filter q l.
+Proof.
+  induction l as [|a l IH]; intros H; [reflexivity|]. cbn [filter].
+  rewrite (H a (or_introl eq_refl)), IH; [reflexivity|]. intros x Hx. apply H. now right.
+Qed.
+
+Theorem core_exact_list (C : circuit) (n : nat) :
+  WF C n -> 0 < root_count C ->
+  calculate_core C n = filter (in_all_models C n) (zseq (- Z.of_nat n) (2 * n + 1)).
+Proof.
+  intros HWF Hrc.
+  assert (Hself : calculate_core C n =
+                  filter (fun l => memZ l (calculate_core C n)) (zseq (- Z.of_nat n) (2 * n + 1))).
+  { unfold calculate_core at 1. cbv zeta. apply filter_ext_in'. intros l Hl.
+    apply eq_true_iff_eq. rewrite memZ_In. unfold calculate_core. cbv zeta. rewrite filter_In. tauto. }
+  rewrite Hself. apply filter_ext_in'. intros l _. apply eq_true_iff_eq.
+  rewrite memZ_In, in_all_models_spec. now apply core_exact_WF.
+Qed.
+
+(* without a model the cached core is the syntactic one (the behaviour of the code before F22) *)
+Theorem core_unsat_is_v0 (C : circuit) (n : nat) :
+  root_count C = 0 -> calculate_core C n = calculate_core_v0 C n.
+Proof.
+  intros Hz. unfold calculate_core, calculate_core_v0. cbv zeta. rewrite (live_literals_zero C Hz).
+  apply filter_ext. intros f.
+  assert (H : forall x, memZ x (lits_of C) = has_lit C x).
+  { intros x. apply eq_true_iff_eq. now rewrite memZ_In, in_lits_of_iff, has_lit_In. }
+  now rewrite !H.
+Qed.
+
+(* when no node is dead (and all are reachable) the repair changes nothing *)
+Theorem core_no_dead_is_v0 (C : circuit) (n : nat) (l : Z) :
+  WF C n -> all_reachable C = true -> no_dead C = true ->
+  (In l (calculate_core C n) <-> In l (calculate_core_v0 C n)).
+Proof.
+  intros HWF Hreach Hnd.
+  assert (Hrc : 0 < root_count C).
+  { rewrite root_count_nth. apply no_dead_pos; [exact Hnd|apply root_lt; apply HWF]. }
+  rewrite (core_exact_WF C n l HWF Hrc). split.
+  - now apply core_complete_WF_v0.
+  - now apply core_sound_WF_v0.
+Qed.
+
+(* the A = [] branch of the algorithm returns the cached core *)
 Lemma core_dead_nil (C : circuit) (n : nat) (s : scratch) :
   core_dead_with_assumptions (build C n) [] s = (s, calculate_core C n).
 Proof. reflexivity. Qed.
 
 Theorem core_dead_nil_correct (C : circuit) (n : nat) (s : scratch) (l : Z) :
-  WFQ C n -> no_dead C = true ->
+  WFQ C n -> 0 < root_count C ->
   (In l (snd (core_dead_with_assumptions (build C n) [] s)) <->
    (forall m, In m (Models C n) -> In l m)).
-Proof. intros HQ Hnd. rewrite core_dead_nil. cbn [snd]. now apply core_syntactic. Qed.
+Proof. intros HQ Hrc. rewrite core_dead_nil. cbn [snd]. now apply core_exact. Qed.
 
 (* ================= (B) refutation without no_dead (finding K7) ================= *)
 
@@ -384,14 +521,16 @@ Definition k7_circuit : circuit :=
 
 Lemma k7_facts :
   check_wf k7_circuit 2 = true /\ no_dead k7_circuit = false /\
-  Models k7_circuit 2 = [[-1; 2]] /\ calculate_core k7_circuit 2 = [2].
+  Models k7_circuit 2 = [[-1; 2]] /\ calculate_core_v0 k7_circuit 2 = [2] /\
+  calculate_core k7_circuit 2 = [-1; 2].
 Proof. vm_compute. repeat split. Qed.
 
+(* the code before F22 *)
 Theorem core_refuted_without_no_dead :
-  exists C n l, WFQ C n /\ (forall m, In m (Models C n) -> In l m) /\ ~ In l (calculate_core C n).
+  exists C n l, WFQ C n /\ (forall m, In m (Models C n) -> In l m) /\ ~ In l (calculate_core_v0 C n).
 Proof.
   exists k7_circuit, 2%nat, (-1).
-  destruct k7_facts as [Hwf [_ [HM HC]]].
+  destruct k7_facts as [Hwf [_ [HM [HC _]]]].
   split; [now apply check_wf_WFQ|]. split.
   - rewrite HM. intros m [<-|[]]. now left.
   - rewrite HC. intros [H|[]]. discriminate.
